@@ -7,14 +7,22 @@ open DynM
    op tokens (comma separated, a trailing '!' is ignored):
      pb,X pop e1,P er,F,L i1,P,X in,P,C,X if,P,HEX ii,P,HEX il,P,HEX
      rs,C rv,C,X rd,C an,C,X ai,HEX al,HEX as,HEX ar,HEX clr
+     pbs,K i1s,P,K ins,P,C,K ans,C,K rvs,C,K  (value = reference to element K of the view itself)
    answer: "wf=<0|1>" followed by one token per executed step
      ok:<ret|->:<bufhex>:v<0|1>:<vechex>:<vret|->    (vec_step on abs of the state before)
      assert:v<0|1>   |   fault:v<0|1>                 (the run stops here) *)
-let op_of_token (tok : string) : op =
+let op_of_token (xs : z list) (tok : string) : op =
   let tok = if String.length tok > 0 && tok.[String.length tok - 1] = '!'
             then String.sub tok 0 (String.length tok - 1) else tok in
   let z = z_of_string and h = bytes_of_hex in
+  (* "...s" tokens: the value argument is element idx of the view before the call *)
+  let self k = (match List.nth_opt xs (int_of_string k) with Some x -> x | None -> failwith "c13: self index") in
   match String.split_on_char ',' tok with
+  | ["pbs"; k] -> PushBack (self k)
+  | ["i1s"; p; k] -> Insert1 (z p, self k)
+  | ["ins"; p; c; k] -> InsertN (z p, z c, self k)
+  | ["ans"; c; k] -> AssignN (z c, self k)
+  | ["rvs"; c; k] -> ResizeV (z c, self k)
   | ["pb"; x] -> PushBack (z x)
   | ["pop"] -> PopBack
   | ["e1"; p] -> Erase1 (z p)
@@ -48,8 +56,8 @@ let cmd_c13 args =
     Buffer.add_string out ("wf=" ^ s01 (wf v !b));
     (try
       List.iter (fun tok ->
-        let o = op_of_token tok in
         let xs = abs v !b in
+        let o = op_of_token xs tok in
         let vl = s01 (valid v (size_of v !b) o) in
         match ex o !b with
         | Ok (r, b') ->
